@@ -43,6 +43,11 @@ def run_one(m):
         if "facts: mirdump failed" in out:
             return (m["id"], "NO-COMPILE", out[-1500:])
         keys = re.findall(r"^REPORT (\S+)", out, re.M)
+        if r.returncode not in (0, 1) or (r.returncode == 1 and not keys and "VIOLATION" not in out):
+            # the check itself crashed (traceback, cache race under load): not a verdict; retried once
+            if not m.get("_retried"):
+                return run_one(dict(m, _retried=True))
+            return (m["id"], "ERROR", out[-600:].replace("\n", " | "))
         if m.get("benign"):
             if r.returncode == 0 and not keys:
                 return (m["id"], "ok-silent", "")
